@@ -147,7 +147,7 @@ class SimLoop(asyncio.BaseEventLoop):
         peer.attach(tr)
         self.call_soon(protocol.connection_made, tr)
         fut = self.create_future()  # connection_made runs before create_connection returns, as in asyncio
-        self.call_soon(fut.set_result, None)
+        self.call_soon(lambda: fut.done() or fut.set_result(None))
         await fut
         return tr, protocol
 
